@@ -37,7 +37,10 @@ CONSTANTS DefaultCopied,      \* schema defaults are deep-copied before they are
           TypeInfosLocked,    \* openapi3gen's type-info cache is accessed under its RWMutex
           PatternCacheAtomic, \* the compiled-pattern cache is a sync.Map
           UriCacheLocked,     \* the URI cache of DefaultReadFromURI is accessed under uriMu
-          UniqueCheckerSet,   \* CONFIGURATION, not design: the uniqueness checker variable is non-nil when validations start
+          UniqueCheckerReadOnly, \* array validation only reads the uniqueness checker: a nil registration is resolved to the default
+                              \* where it is registered (fix 6e03b47; FALSE = the code before it: found nil, re-initialised inside the visit)
+          RouterStateless,    \* FindRoute reads the router's tables only (FALSE: it remembers, atomically, which candidate matched last --
+                              \* no data race; what that does to the ANSWERS is RouteOrder.tla's business)
           WithWriters,        \* the documented writers (doc.Validate, router construction, Register* / Define*) join the catalogue
           MaxOps              \* number of concurrent operations explored
 
@@ -46,7 +49,7 @@ Acc(k, x) == <<k, x>>
 (* ------------------------------------------------------------------ elements *)
 Locations ==
    [ patternCache     |-> "openapi3.compiledPatterns: sync.Map, Load / CompareAndSwap by every string visit with a pattern",
-     uniqueChecker    |-> "openapi3.sliceUniqueItemsChecker: package variable, read by every array visit, re-initialised there when nil",
+     uniqueChecker    |-> "openapi3.sliceUniqueItemsChecker: package variable, read by every array visit; written by RegisterArrayUniqueItemsChecker only",
      formats_string   |-> "openapi3.SchemaStringFormats: plain map, read by string visits with a format; written by DefineStringFormat*",
      formats_number   |-> "openapi3.SchemaNumberFormats: plain map, read by number visits with a format",
      formats_integer  |-> "openapi3.SchemaIntegerFormats: plain map, read by integer visits with a format",
@@ -58,7 +61,7 @@ Locations ==
      typeInfos        |-> "openapi3gen.typeInfos: map under typeInfosMutex",
      uriCache         |-> "openapi3.DefaultReadFromURI: URIMapCache map under uriMu",
      doc              |-> "the loaded document: paths, path items, parameter lists, operations, schemas, defaults, security, servers",
-     mux              |-> "gorillamux.Router: muxes, routes (prototypes copied per FindRoute)",
+     mux              |-> "gorillamux.Router: muxes, routes (prototypes copied per FindRoute); no per-request state (RouteOrder.tla)",
      legacy           |-> "legacy.Router: pathpattern tree (and the *Route values stored in it, returned as they are)",
      callerOptions    |-> "one openapi3filter.Options value used for many requests",
      middleware       |-> "one openapi3filter.Validator serving many requests" ]
@@ -95,6 +98,20 @@ MtSent(f) == (CHOOSE p \in MtPairs : MtName(p) = f)[2]
 RegisteredAtStart == {"json", "problem", "vendor_reg", "yaml", "plain", "octet"}
 MtOps == MtEntries \X MtFeatures
 
+(* ------------------------------------------------------------------ routers over overlapping routes: entry x route shape *)
+(* A second document (RouteOrder!Paths, RouteOrder!Servers) in which one request is matched by several (path, server)  *)
+(* pairs; the three variants of a shape are: a request for the higher-priority candidate, one that only the lower one   *)
+(* matches, the first again -- so the callers of one operation already mix the traffic.                                 *)
+RouteEntries == {"route_mux", "route_legacy", "vreq_route_mux", "vreq_route_legacy", "middleware_route"}
+RouteShapes == {"overlap_sibling", "overlap_deep", "overlap_servers"}
+RouteOps == RouteEntries \X RouteShapes
+RO == INSTANCE RouteOrder WITH Hinted <- FALSE, MaxCalls <- 0, hint <- <<>>, calls <- 0, last <- <<>>
+(* the route the document prescribes for the three variants: gorillamux reports path and server, the legacy router's   *)
+(* Route carries no server                                                                                              *)
+(* Route carries no server, the middleware does not report the route it found (its status code does, below)             *)
+Routes(op) == IF op[1] \in {"route_legacy", "vreq_route_legacy"} THEN RO!RoutePaths(op[2])
+              ELSE IF op[1] = "middleware_route" THEN <<"-", "-", "-">> ELSE RO!Routes(op[2])
+
 (* ------------------------------------------------------------------ the flat operations (rounds 1-5) and further entry points *)
 FlatOps == {"find_mux", "find_legacy", "find_mux_servers", "find_legacy_servers",
             "vreq_params", "vreq_params_delete", "vreq_body_pattern", "vreq_body_pattern_first", "vreq_body_pattern_again", "vreq_body_unique",
@@ -105,10 +122,10 @@ FlatOps == {"find_mux", "find_legacy", "find_mux_servers", "find_legacy_servers"
 (* documented writers: never part of the validation-time catalogue; in the model to show WHY (WithWriters has a counterexample) *)
 WriterOps == {"w_doc_validate", "w_new_legacy_router", "w_register_decoder", "w_define_format", "w_register_unique"}
 
-Ops == ProductOps \cup MtOps \cup {<<o, "-">> : o \in FlatOps} \cup (IF WithWriters THEN {<<o, "-">> : o \in WriterOps} ELSE {})
+Ops == ProductOps \cup MtOps \cup RouteOps \cup {<<o, "-">> : o \in FlatOps} \cup (IF WithWriters THEN {<<o, "-">> : o \in WriterOps} ELSE {})
 
 (* ------------------------------------------------------------------ access sequences *)
-Find == <<Acc("R", "mux")>> \o (IF RouteCopied THEN <<>> ELSE <<Acc("W", "mux.route"), Acc("R", "mux.route")>>)
+Find == <<Acc("R", "mux")>> \o (IF RouterStateless THEN <<>> ELSE <<Acc("A", "mux.hint"), Acc("A", "mux.hint")>>) \o (IF RouteCopied THEN <<>> ELSE <<Acc("W", "mux.route"), Acc("R", "mux.route")>>)
 FindLegacy == <<Acc("R", "legacy"), Acc("R", "doc.paths"), Acc("R", "legacy.route")>>      \* the caller reads the router's own Route value
 SharedSettings(e) == e \in OptionLess /\ ~SettingsPerCall
 SettingsRead(e) == IF SharedSettings(e) THEN <<Acc("R", "settings_default")>> ELSE <<>>
@@ -120,7 +137,7 @@ TypeInfos(write) ==
 Pattern(first) ==
    IF PatternCacheAtomic THEN <<Acc("A", "patternCache")>> \o (IF first THEN <<Acc("A", "patternCache")>> ELSE <<>>)
    ELSE <<Acc("R", "patternCache")>> \o (IF first THEN <<Acc("W", "patternCache")>> ELSE <<>>)
-Unique == <<Acc("R", "uniqueChecker")>> \o (IF UniqueCheckerSet THEN <<>> ELSE <<Acc("W", "uniqueChecker")>>)
+Unique == <<Acc("R", "uniqueChecker")>> \o (IF UniqueCheckerReadOnly THEN <<>> ELSE <<Acc("W", "uniqueChecker")>>)
 Decoders(miss) == <<Acc("R", "bodyDecoders")>> \o (IF miss /\ ~RegistryInitOnly THEN <<Acc("W", "bodyDecoders")>> ELSE <<>>)
 
 EntryAcc(e) ==
@@ -191,6 +208,11 @@ FlatAcc(op) ==
 Accesses(op) ==
    LET e == op[1]  f == op[2] IN
    IF f = "-" THEN FlatAcc(e)
+   ELSE IF e \in RouteEntries THEN
+        (IF e \in {"route_legacy", "vreq_route_legacy"} THEN <<Acc("R", "doc.servers")>> \o FindLegacy ELSE Find \o <<Acc("R", "doc.servers")>>)
+        \o (IF e \in {"route_mux", "route_legacy"} THEN <<>>
+            ELSE <<Acc("R", "doc.pathitem.parameters"), Acc("R", "doc.operation.parameters"), Acc("R", "doc.schema")>>)
+        \o (IF e = "middleware_route" THEN <<Acc("R", "middleware")>> ELSE <<>>)
    ELSE IF e \in MtEntries THEN EntryAcc(e) \o Decoders(MtSent(f) \notin RegisteredAtStart)
    ELSE SettingsRead(e) \o EntryAcc(e) \o (IF e \in {"req_body", "resp_body", "middleware", "req_body_legacy"} THEN Decoders(FALSE) ELSE <<>>) \o FeatureAcc(e, f)
 
@@ -248,6 +270,9 @@ FlatVerdicts(op) ==
 Verdicts(op) ==
    LET e == op[1]  f == op[2] IN
    IF f = "-" THEN FlatVerdicts(e)
+   ELSE IF e \in RouteEntries THEN       \* path variables are integers: "mine", "c" fit no variable, "d" (second variant of overlap_deep) is one
+        (IF e \in {"route_mux", "route_legacy"} THEN <<"other", "other", "other">>
+         ELSE IF f = "overlap_deep" THEN <<"ok", "reject", "ok">> ELSE <<"ok", "ok", "ok">>)
    ELSE IF e \in MtEntries THEN (IF MtSent(f) \in RegisteredAtStart THEN <<"ok", "reject", "ok">> ELSE <<"reject", "reject", "reject">>)
    ELSE IF e = "visit_typed" /\ f \in NotTyped THEN <<"ok", "ok", "ok">>
    ELSE <<"ok", "reject", "ok">>
